@@ -551,6 +551,36 @@ pub fn cmd_src(args: &[String]) {
             println!("{}", src_call("gen_range", a, 300, &ent));
         }
     }
+    // extreme byte patterns: constant strings of every length up to 16 (all ones, all zeros, sign-bit and mid-range
+    // bytes) and runs of 0xFF ended by another byte — the inputs on which a draw scaled from a fixed-width integer, a
+    // rounding step or a width boundary shows; every draw, every n of the grid
+    let mut patterns: Vec<Vec<u8>> = Vec::new();
+    for &x in &[0x00u8, 0x01, 0x7f, 0x80, 0xfe, 0xff] {
+        for len in 1..=16usize {
+            patterns.push(vec![x; len]);
+        }
+    }
+    for len in 1..=9usize {
+        for &y in &[0x00u8, 0x7f, 0xfe] {
+            let mut v = vec![0xffu8; len];
+            v.push(y);
+            patterns.push(v.clone());
+            v.reverse();
+            patterns.push(v);
+        }
+    }
+    for inp in &patterns {
+        let ent = Ent::Arb(inp.clone());
+        for m in simple {
+            println!("{}", src_call(m, 0, 0, &ent));
+        }
+        for &a in GRID.iter() {
+            println!("{}", src_call("choose_index", a, 0, &ent));
+            println!("{}", src_call("gen_range", 0, a, &ent));
+            println!("{}", src_call("gen_range", a, a.saturating_add(95), &ent));
+        }
+        println!("{}", src_call("gen_bytes", inp.len() + 3, 0, &ent));
+    }
     // grid x sampled inputs (length 0..16) and PRNG states
     for i in 0..n {
         let ent = if i % 3 == 0 {
